@@ -15,6 +15,7 @@ import numpy as np
 
 from vlib import common as C
 from vlib import mpsgen as G
+from vlib import program as P
 from vlib.common import yastn, YastnError, gsum
 from vlib.runner import HypPart, MachinePart, Res, Violation, Reject, record
 import yastn.tn.mps as mps
@@ -305,8 +306,15 @@ def draw_trunc_case(data, tier):
         opts['tol'] = data.draw(st.sampled_from([0.1, 0.3, 0.03, 0.5]))
     if 'D_block' in which:
         opts['D_block'] = data.draw(st.sampled_from([1, 2]))
-    return {'fam': fam, 'N': N, 'state': state_, 'to': data.draw(st.sampled_from(['last', 'first'])), 'opts': opts,
+    case = {'fam': fam, 'N': N, 'state': state_, 'to': data.draw(st.sampled_from(['last', 'first'])), 'opts': opts,
             'normalize': data.draw(st.booleans()), 'degenerate': data.draw(st.sampled_from([False, False, True]))}
+    if state_['kind'] == 'random' and P.chance(data, 1, 4):
+        # a state with a tiny tail, psi + eps * chi, cut by a relative tolerance: the discarded weight is ~eps and has to be reported as such
+        state_['D'] = data.draw(st.sampled_from([2, 3, 4]))
+        case['tail'] = {'eps': data.draw(st.sampled_from([1e-5, 1e-6, 1e-7, 1e-8, 3e-9])), 'D': data.draw(st.sampled_from([1, 2, 3]))}
+        case['opts'] = {'tol': data.draw(st.sampled_from([1e-3, 1e-4]))}
+        case['degenerate'] = False
+    return case
 
 
 def left_charges(sp, N, b):
@@ -376,6 +384,11 @@ def execute_trunc_case(case):
         raise Reject('zero_random_state')
     if case['degenerate']:
         psi = mps.add(psi, psi, amplitudes=[1, 0.5])
+    if case.get('tail'):
+        chi = G.build_state(dict(case['state'], seed=case['state']['seed'] + 1, D=case['tail']['D'], factor=1), fam, N)
+        if chi is None:
+            raise Reject('zero_random_state')
+        psi = mps.add(psi, chi, amplitudes=[1 / psi.norm(), case['tail']['eps'] / chi.norm()])
     to = case['to']
     other = 'first' if to == 'last' else 'last'
     psi.canonize_(to=other, normalize=False)
@@ -407,6 +420,13 @@ def execute_trunc_case(case):
             raise Violation('truncate:reported_error', f'returned^2 = {ret ** 2}, 1 - |<psi|phi>|^2 = {1 - ov} (normalize=True)')
         if abs(nphi - 1) > 1e-9:
             raise Violation('truncate:not_unit_norm', f'norm after truncate_(normalize=True) = {nphi}')
+    # the same comparison without squares: sine of the angle between the original and the truncated state, accurate for tiny weights too
+    a, b = v / nv, phi / nphi
+    sine = np.linalg.norm(a - b * np.vdot(b, a))
+    if abs(ret - sine) > 1e-10:
+        raise Violation('truncate:reported_error_small', f'returned {ret:.6e}, true relative distance {sine:.6e}')
+    if case.get('tail'):
+        labels.append('tail:discarded<1e-6' if sine < 1e-6 else 'tail:discarded>=1e-6')
     if not psi.is_canonical(to=to, tol=1e-9):
         raise Violation('truncate:not_canonical', f'not canonical to {to} after truncate_')
     # independent sequential truncation
